@@ -171,6 +171,27 @@ def run_case(desc):
                 add("final-state-depends-on-chunking", "paths %s" % [p[0] for p in st.diff(ref_fp, f)][:6], ch)
     if not invariant:
         contracts.count("C10.chunking-invariance-checker", 0)
+    if is_bm:
+        # ---- every manager: update commits given decisions instance by instance - one update call with a chunk of decisions
+        # leaves the state of the same decisions committed one at a time (update itself draws no decision)
+        try:
+            m = int(rng.randint(2, 14))
+            dec_c = rng.rand(m) < 0.35
+            Uc = np.round(rng.rand(m) * 64) / 64.0
+            Xc = np.zeros((m, d))
+            a_, b_ = _build(desc), _build(desc)
+            for o in (a_, b_):
+                o.query_by_utility(np.array([]))
+            streams.update_bm(a_, Xc, np.flatnonzero(dec_c), Uc)
+            for i in range(m):
+                streams.update_bm(b_, Xc[i:i + 1], np.array([0] if dec_c[i] else [], dtype=int), Uc[i:i + 1])
+            contracts.count("C10.update-chunk-equals-update-one-by-one")
+            fa, fb = streams.state_fp(a_), streams.state_fp(b_)
+            if fa != fb:
+                add("update-of-a-chunk-differs-from-updates-one-by-one", "decisions %s: paths %s" % (
+                    dec_c.astype(int).tolist(), [(p_[0], str(p_[1])[:30], str(p_[2])[:30]) for p_ in st.diff(fa, fb)][:4]), "one")
+        except Exception:
+            contracts.count("C10.update-chunk-equals-update-one-by-one", 0)
     return {"status": "ok", "violations": viol, "nontrivial": stats["mixed_chunks"] > 0,
             "nt_key": "%s|%s|b%s|w%s|%s|ffb%d" % (name, desc["bm"], desc["budget"], desc["w"], desc["stream"], desc["ffb"]),
             "cells": ["%s|%s" % (desc["family"], name)], "monitors": contracts.drain_evals(), "counters": stats,
